@@ -2,6 +2,7 @@ package verify
 
 import (
 	"crypto/x509"
+	"encoding/json"
 
 	pb "github.com/google/go-tdx-guest/proto/tdx"
 	vp "github.com/google/go-tdx-guest/zzvp"
@@ -103,4 +104,25 @@ func H03e_MalformedResponses() {
 	}
 	err := TdxQuote(quote, &Options{GetCollateral: true, Getter: w.getter, Now: symTimeSet("t")})
 	vp.Assert("malformed-response-rejected", err != nil)
+}
+
+// H03g: histories. After a good response was processed, a later response that lacks the signed
+// member is rejected (nothing from the earlier response stands in for it).
+func H03g_MemberlessResponseAfterGoodOne() {
+	w := mkCollateralWorld(0, 1, 0, 1, 0, 0)
+	quote := mkQuote(w.pki, 0)
+	now := symTimeSet("t")
+	if TdxQuote(quote, &Options{GetCollateral: true, Getter: w.getter, Now: now}) != nil {
+		return
+	}
+	vp.Reach("first-accepted", true)
+	// the endpoint now serves bodies without the signed member
+	d := w.tcbDoc
+	if vp.Choose("which_doc", 2) == 1 {
+		d = w.qeDoc
+	}
+	g := vp.GhostGet(d.resp.body, "json").(*jsonGhost)
+	g.members = map[string]json.RawMessage{"signature": []byte{1}}
+	err := TdxQuote(quote, &Options{GetCollateral: true, Getter: w.getter, Now: now})
+	vp.Assert("response-without-signed-member-rejected", err != nil)
 }
